@@ -59,6 +59,10 @@ CLAIMED["C18"] = ("mirsym over output_diff_json (one DiffOp of symbolic kind, in
     "bounded symbolic model checking of the JSON line-range kernel and the diff wiring: for every DiffOp kind with indices and lengths < 2^32: start = index, end = index+len-1, `original`/`expected` are the concatenation of ALL removed/added lines, no arithmetic panic; every output format hands (original, expected) in that order to its producer; format_file/format_string diff the text read against format_code's result",
     "trusts rustc's MIR printer, mirsym, z3, similar's TextDiff (grouped_ops / iter_changes contract) and unified_diff; the unified/standard texts themselves are produced by similar/console and only replayed, not encoded", "5/C18")
 
+CLAIMED["C07"] = ("mirsym panic census over every panic!/unreachable!/assert! site of the library MIR (both feature sets) with valid-discriminant constraints; z3 sequence theory over the tokenizer's number language against Rust's f64 / from_str_radix accept languages for verify_ast::visit_number; Shape/Indent arithmetic and the simple_heuristics guard by path queries; native replay over a syntax corpus",
+    "bounded symbolic model checking of the named panic mechanisms (NOT whole-program totality): parse errors always surface as Err; no node kind of the feature set falls into a wildcard/unreachable arm except under the listed caller/parser preconditions (each listed with the node kinds allowed to reach it); Shape arithmetic cannot overflow for indent_width <= 2^16, nesting < 2^32, offsets < 2^48 and any column_width; argument trial formatting happens only without simple_heuristics and always sets it; --verify number normalisation neither panics nor slices out of bounds for any number token of <= 24 characters of any syntax",
+    "trusts rustc's MIR printer (and its removal of exhaustive wildcard arms), mirsym, z3 (incl. its sequence solver), the number-language transcriptions in vcheck/numstr.py; stack depth, wall time, unwrap() on callee results and string-width arithmetic are outside", "5/C07")
+
 CLAIMED["C15"] = ("mirsym over find_config_file (recursion inlined) / lookup_config_file_in_directory / find_toml_file / load_configuration(_for_stdin) with the file system abstracted to a symbolic directory chain and a map-summarised cache, two successive lookups; z3 against the documented precedence; directory-tree replay",
     "bounded symbolic model checking of the precedence kernels: for every existence pattern of stylua.toml/.stylua.toml on a chain of 4 directories, every cwd position or parent search: the nearest file up to the root (or XDG/HOME) is chosen, a cached second lookup (same directory or its parent) agrees; forced > found > editorconfig (unless disabled) > defaults",
     "trusts rustc's MIR printer, mirsym + Path/HashMap summaries, z3; toml decoding, ec4rs discovery and the XDG/HOME probing order are outside", "5/C15-C20")
